@@ -1,5 +1,6 @@
 import MqttVerif.Conn.Lemmas.Reconnect
 import MqttVerif.Conn.Lemmas.NoPanicHeld5
+import MqttVerif.Conn.Lemmas.DiscClean
 /-!
 # C05 — no peer-controlled input can panic or wedge a connection
 
@@ -386,5 +387,289 @@ theorem nvOps_legalIds : LegalSeqIds nvCfg (St.init nvCfg 5) (nvOps.take 5) := b
 example : ∀ x ∈ (run nvCfg (St.init nvCfg 5) (nvOps.take 5)).store,
     isUsed (run nvCfg (St.init nvCfg 5) (nvOps.take 5)) x.1 = true :=
   C06_stored_id_held_run nvCfg 5 (by decide) (by decide) (by decide) _ nvOps_legalIds
+
+
+/-! ## a disconnected object accepts a new connection — in EVERY disconnected state
+
+Driver monitors `VIOL sig=C05 connect_refused_while_disconnected@<site>` and
+`VIOL sig=C05 connect_not_accepted_while_disconnected@<site>`.  `C05_closed_then_connectable_send/_recv`
+are about the state right after `closed`.  For an arbitrary disconnected state the only thing that
+can stand between a CONNECT and its acceptance is a Maximum Packet Size of the *previous*
+connection: `mpsSend` (peer's limit, tested by `process_send_v5_0_connect`) and `mpsRecv` (our
+limit, tested by `process_recv_packet`) are reset by `notify_closed` only, whereas the status
+becomes `disconnected` already when a DISCONNECT / refusing CONNACK is sent or a protocol error /
+keep-alive timeout is handled.  So:
+* `C05_connect_sent_when_disconnected` / `C05_connect_delivered_when_disconnected`: in ANY
+  disconnected state (no invariant, panic or not) a CONNECT that respects the limit currently
+  stored is accepted; v3.1.1 `send` has no size test at all;
+* `C05_stale_limit_refuses_connect_*`: the limit hypothesis is needed — reachable counter-examples
+  (the application reconnects after a close request without calling `notify_closed`);
+* `C05_disc_clean_step/_run`: the covered reachable states — every state reached by a sequence of
+  calls in which each close request (`RequestClose`) is followed by `notify_closed` before anything
+  else carries no limit while disconnected (`DiscClean`), so every CONNECT within the protocol
+  maximum is accepted (`C05_connectable_send` / `C05_connectable_recv`). -/
+
+/-- **C05 connect_refused_while_disconnected.**  In ANY state with status `disconnected` (no
+    invariant; whatever `panic` holds) a CONNECT of the connection's version handed to `send` by
+    a role that may send it is requested for sending — provided, for v5.0, that it fits the peer
+    limit currently stored (`mpsSend`; "no limit" after `closed`: `C05_disc_clean_run`). -/
+theorem C05_connect_sent_when_disconnected (cfg : Cfg) (s : St) (p : Pkt)
+    (hr : cfg.role ≠ .server) (hk : p.kind = .connect) (hv : s.ver = p.ver)
+    (hs : s.status = .disconnected) (hsz : p.ver = 4 ∨ p.sz cfg.pw ≤ s.mpsSend) :
+    Ev.send p none ∈ (step cfg s (.send p)).ev := by
+  have hrole : roleMaySend cfg.role p = true := by
+    simp only [roleMaySend, hk]; cases hc : cfg.role <;> simp_all
+  show Ev.send p none ∈ (send { cfg := cfg, s := s } p).ev
+  unfold send
+  simp only [hv, ne_eq, not_true_eq_false, if_false, hrole, Bool.not_true, Bool.false_eq_true]
+  unfold processSend
+  split
+  · simp only [hk]
+    unfold psV3Connect
+    simp only [hs, ne_eq, not_true_eq_false, if_false]
+    apply mem_spp_of_mem
+    simp [C.push]
+  · rename_i h4
+    have hso : sizeOk { cfg := cfg, s := s } p = true := by
+      rcases hsz with e | e
+      · exact absurd e h4
+      · simp [sizeOk]; omega
+    simp only [hk]
+    unfold psV5Connect
+    simp only [hso, hs, ne_eq, not_true_eq_false, if_false, Bool.not_true, Bool.false_eq_true]
+    apply mem_spp_of_mem
+    simp [C.push]
+
+/-- **C05 connect_not_accepted_while_disconnected.**  In ANY state with status `disconnected`, for a
+    role that may receive a CONNECT: a complete CONNECT frame (`ht`) that fits the limit currently
+    stored (`mpsRecv`) and that the parser accepts is delivered — the connection's version being
+    determined (`hv`: parsed for that version) or undetermined (then the frame carries protocol
+    level 4 or 5 at its seventh byte and is parsed for that version). -/
+theorem C05_connect_delivered_when_disconnected (cfg : Cfg) (s : St) (inp : List Nat)
+    (parse : Nat → Nat → List Nat → Except Nat Pkt)
+    (pb' : Framing.PB) (fh : Nat) (data rest : List Nat) (p : Pkt)
+    (hr : cfg.role ≠ .client) (hs : s.status = .disconnected)
+    (hf : Framing.feed s.pb inp = (pb', some (.complete fh data), rest))
+    (ht : fh / 16 = 1) (hsz : totalSize data.length ≤ s.mpsRecv)
+    (hv : (s.ver ≠ 0 ∧ parse s.ver fh data = .ok p) ∨
+          (s.ver = 0 ∧ 7 ≤ data.length ∧ (data.getD 6 0 = 4 ∨ data.getD 6 0 = 5) ∧
+            parse (data.getD 6 0) fh data = .ok p)) :
+    Ev.recv p ∈ (step cfg s (.recv inp parse)).ev := by
+  have hcr : canReceive cfg { s with pb := pb' } 1 = true := by
+    cases hc : cfg.role <;> simp_all [canReceive]
+  show Ev.recv p ∈ (recv { cfg := cfg, s := s } inp parse).1.ev
+  unfold recv
+  rw [hf]
+  dsimp only
+  unfold processRecvPacket
+  have h1 : ¬ (totalSize data.length > s.mpsRecv) := by omega
+  simp only [h1, if_false, ht, hcr, Bool.not_true, Bool.false_eq_true]
+  rcases hv with ⟨h0, hp⟩ | ⟨h0, hl, hlv, hp⟩
+  · simp only [h0, if_false]
+    unfold dispatchRecv
+    simp only
+    split
+    · unfold prV3Connect
+      simp only [hs, ne_eq, not_true_eq_false, if_false, hp]
+      simp [C.push]
+    · unfold prV5Connect
+      simp only [hs, ne_eq, not_true_eq_false, if_false, hp]
+      simp [C.push]
+  · have hl' : ¬ data.length < 7 := by omega
+    simp only [h0, if_true, hl', if_false]
+    rcases hlv with e | e
+    · rw [e] at hp
+      simp only [e, if_true]
+      unfold prV3Connect
+      simp only [hs, ne_eq, not_true_eq_false, if_false, hp]
+      simp [C.push]
+    · rw [e] at hp
+      have : ¬ ((5 : Nat) = 4) := by decide
+      simp only [e, this, if_false, if_true]
+      unfold prV5Connect
+      simp only [hs, ne_eq, not_true_eq_false, if_false, hp]
+      simp [C.push]
+
+/-- a disconnected connection carries no Maximum Packet Size of a dead connection -/
+def DiscClean (s : St) : Prop := s.status = .disconnected → s.mpsSend = noLimit ∧ s.mpsRecv = noLimit
+
+theorem DiscClean.goodK {cfg : Cfg} {s : St} (h : DiscClean s) : DC.GoodK (DC.K { cfg := cfg, s := s }) := by
+  by_cases hs : s.status = .disconnected
+  · exact .inr (.inr (h hs))
+  · exact .inr (.inl hs)
+
+theorem DiscClean.of_goodK {c : C} (h : DC.GoodK (DC.K c)) (hc : Mon.hasClose c.ev = false) : DiscClean c.s := by
+  intro hs
+  rcases h with h | h | h
+  · simp only [DC.K] at h; rw [hc] at h; cases h
+  · exact absurd hs h
+  · exact h
+
+theorem C05_disc_clean_init (cfg : Cfg) (ver : Nat) : DiscClean (St.init cfg ver) := fun _ => ⟨rfl, rfl⟩
+
+/-- `notify_closed` establishes `DiscClean` from ANY state -/
+theorem C05_disc_clean_closed (cfg : Cfg) (s : St) : DiscClean (step cfg s .closed).s :=
+  fun _ => DC.good_notifyClosed { cfg := cfg, s := s }
+
+/-- **every call keeps `DiscClean` unless it requests the transport to be closed**: the limits
+    change only in calls that leave the status `connecting` / `connected`, and every site that
+    sets the status to `disconnected` pushes `RequestClose` (`notify_closed` resets the limits).
+    Every operation, every packet, every peer input and parser; no invariant. -/
+theorem C05_disc_clean_step (cfg : Cfg) (s : St) (op : Op) (h : DiscClean s)
+    (hc : Mon.hasClose (step cfg s op).ev = false) : DiscClean (step cfg s op).s := by
+  have g : DC.GoodK (DC.K ({ cfg := cfg, s := s } : C)) := h.goodK
+  by_cases hop : op = .closed
+  · subst hop; exact C05_disc_clean_closed cfg s
+  refine DiscClean.of_goodK ?_ hc
+  cases op with
+  | send p => exact DC.good_send g p
+  | recv inp parse => exact DC.good_recv g inp parse
+  | timer k => exact DC.good_notifyTimerFired g k
+  | closed => exact absurd rfl hop
+  | setInterval d => exact DC.good_congr (DC.K_setPingreqSendInterval _ d) g
+  | setFlag f b => cases f <;> exact g
+  | setRespTimeout ms => exact g
+  | acquire => exact g
+  | register id => exact g
+  | release id => exact DC.good_congr (DC.K_releaseIfUsed _ id) g
+  | erase id => exact DC.good_congr (DC.K_eraseStoredPublish _ id) g
+  | restoreHandled ids => exact g
+  | restorePackets ps => exact DC.good_congr (DC.K_restorePackets ps _) g
+
+/-- the application obeys close requests: after a call whose events contain `RequestClose`, the
+    next call (if any) is `notify_closed` -/
+def ObeysClose (cfg : Cfg) : St → List Op → Prop
+  | _, [] => True
+  | s, op :: ops =>
+    (Mon.hasClose (step cfg s op).ev = true → ops = [] ∨ ops.head? = some .closed) ∧
+    ObeysClose cfg (step cfg s op).s ops
+
+/-- the last call of the sequence requested a close (which is still to be obeyed) -/
+def closePending (cfg : Cfg) : St → List Op → Bool
+  | _, [] => false
+  | s, [op] => Mon.hasClose (step cfg s op).ev
+  | s, op :: op' :: ops => closePending cfg (step cfg s op).s (op' :: ops)
+
+/-- **run level: the reachable states covered.**  Along every sequence of calls that obeys close
+    requests, from a `DiscClean` state (a fresh object: `C05_disc_clean_init`), the state is
+    `DiscClean` unless the very last call requested a close. -/
+theorem C05_disc_clean_run (cfg : Cfg) (ops : List Op) (s : St)
+    (h : DiscClean s ∨ ops.head? = some .closed) (ho : ObeysClose cfg s ops) :
+    DiscClean (run cfg s ops) ∨ closePending cfg s ops = true := by
+  induction ops generalizing s with
+  | nil =>
+    rcases h with h | h
+    · exact .inl h
+    · cases h
+  | cons op ops ih =>
+    have hstep : Mon.hasClose (step cfg s op).ev = false → DiscClean (step cfg s op).s := by
+      intro hc
+      rcases h with h | h
+      · exact C05_disc_clean_step cfg s op h hc
+      · simp only [List.head?_cons, Option.some.injEq] at h
+        subst h; exact C05_disc_clean_closed cfg s
+    cases ops with
+    | nil =>
+      simp only [run, closePending]
+      cases hc : Mon.hasClose (step cfg s op).ev
+      · exact .inl (hstep hc)
+      · exact .inr rfl
+    | cons op' ops' =>
+      simp only [run, closePending]
+      refine ih (step cfg s op).s ?_ ho.2
+      cases hc : Mon.hasClose (step cfg s op).ev
+      · exact .inl (hstep hc)
+      · rcases ho.1 hc with e | e
+        · cases e
+        · exact .inr e
+
+/-- **C05 connect_refused_while_disconnected, covered states**: in a `DiscClean` state every
+    CONNECT within the protocol's own maximum is requested for sending -/
+theorem C05_connectable_send (cfg : Cfg) (s : St) (p : Pkt) (hd : DiscClean s)
+    (hr : cfg.role ≠ .server) (hk : p.kind = .connect) (hv : s.ver = p.ver)
+    (hs : s.status = .disconnected) (hsz : p.sz cfg.pw ≤ noLimit) :
+    Ev.send p none ∈ (step cfg s (.send p)).ev :=
+  C05_connect_sent_when_disconnected cfg s p hr hk hv hs (.inr (by rw [(hd hs).1]; exact hsz))
+
+/-- **C05 connect_not_accepted_while_disconnected, covered states** -/
+theorem C05_connectable_recv (cfg : Cfg) (s : St) (inp : List Nat)
+    (parse : Nat → Nat → List Nat → Except Nat Pkt)
+    (pb' : Framing.PB) (fh : Nat) (data rest : List Nat) (p : Pkt) (hd : DiscClean s)
+    (hr : cfg.role ≠ .client) (hs : s.status = .disconnected)
+    (hf : Framing.feed s.pb inp = (pb', some (.complete fh data), rest))
+    (ht : fh / 16 = 1) (hsz : totalSize data.length ≤ noLimit)
+    (hv : (s.ver ≠ 0 ∧ parse s.ver fh data = .ok p) ∨
+          (s.ver = 0 ∧ 7 ≤ data.length ∧ (data.getD 6 0 = 4 ∨ data.getD 6 0 = 5) ∧
+            parse (data.getD 6 0) fh data = .ok p)) :
+    Ev.recv p ∈ (step cfg s (.recv inp parse)).ev :=
+  C05_connect_delivered_when_disconnected cfg s inp parse pb' fh data rest p hr hs hf ht
+    (by rw [(hd hs).2]; exact hsz) hv
+
+/-! ### the limit hypothesis is needed: reachable counter-examples, and non-vacuity -/
+namespace C05Ex
+def cfgC : Cfg := { role := .client, pw := 2 }
+def cfgS : Cfg := { role := .server, pw := 2 }
+def connect : Pkt := { ver := 5, kind := .connect, size := 20, keepAlive := 10 }
+def connackMps (n : Nat) : Pkt := { ver := 5, kind := .connack, size := 8, rc := some 0, props := [(pMPS, n)] }
+def disc : Pkt := { ver := 5, kind := .disconnect, size := 2 }
+def okp (p : Pkt) : Nat → Nat → List Nat → Except Nat Pkt := fun _ _ _ => .ok p
+def connectBytes : List Nat := [0x10, 10, 0, 4, 77, 81, 84, 84, 5, 2, 0, 0]
+
+/-- client: CONNECT, CONNACK announcing Maximum Packet Size 10, DISCONNECT sent (close requested)
+    — and, WITHOUT `notify_closed`, a new CONNECT of 20 bytes -/
+def opsC : List Op := [.send connect, .recv [0x20, 3, 0, 0, 0] (okp (connackMps 10)), .send disc]
+def sC : St := run cfgC (St.init cfgC 5) opsC
+
+/-- the monitor's guard holds (disconnected, role client, version 5) yet the CONNECT is refused
+    with `PacketTooLarge`: the limit of the dead connection is still in force -/
+theorem C05_stale_limit_refuses_connect_send :
+    sC.status = .disconnected ∧ sC.mpsSend = 10 ∧ sC.panic = none ∧
+    (step cfgC sC (.send connect)).ev = [.error eTooLarge] ∧
+    ¬ DiscClean sC ∧ closePending cfgC (St.init cfgC 5) opsC = true ∧
+    ¬ ObeysClose cfgC (St.init cfgC 5) (opsC ++ [.send connect]) := by
+  refine ⟨by decide, by decide, by decide, by decide, ?_, by decide, ?_⟩
+  · intro h; exact absurd (h (by decide)).1 (by decide)
+  · intro h
+    have := h.2.2.1 (by decide)
+    simp at this
+
+/-- with `notify_closed` in between the same CONNECT is requested for sending
+    (`C05_disc_clean_run` + `C05_connectable_send`) -/
+theorem opsC_obeys : ObeysClose cfgC (St.init cfgC 5) (opsC ++ [.closed]) :=
+  ⟨fun h => absurd h (by decide), fun h => absurd h (by decide), fun _ => .inr rfl, fun _ => .inl rfl, trivial⟩
+example : Ev.send connect none ∈ (step cfgC (run cfgC (St.init cfgC 5) (opsC ++ [.closed])) (.send connect)).ev := by
+  have hd := C05_disc_clean_run cfgC (opsC ++ [.closed]) (St.init cfgC 5) (.inl (C05_disc_clean_init _ _))
+    opsC_obeys
+  have hd' : DiscClean (run cfgC (St.init cfgC 5) (opsC ++ [.closed])) := by
+    rcases hd with h | h
+    · exact h
+    · exact absurd h (by decide)
+  exact C05_connectable_send cfgC _ connect hd' (by decide) rfl (by decide) (by decide) (by decide)
+
+/-- server: CONNECT delivered, CONNACK sent announcing Maximum Packet Size 10, DISCONNECT sent
+    (close requested) — and, WITHOUT `notify_closed`, a new 12-byte CONNECT frame arrives -/
+def opsS : List Op := [.recv connectBytes (okp connect), .send (connackMps 10), .send disc]
+def sS : St := run cfgS (St.init cfgS 5) opsS
+
+theorem C05_stale_limit_refuses_connect_recv :
+    sS.status = .disconnected ∧ sS.mpsRecv = 10 ∧ sS.panic = none ∧ sS.pb = {} ∧
+    Framing.feed sS.pb connectBytes = ({}, some (.complete 0x10 (connectBytes.drop 2)), []) ∧
+    (step cfgS sS (.recv connectBytes (okp connect))).ev = [.error eNotAllowed, .error eTooLarge] ∧
+    ¬ DiscClean sS := by
+  refine ⟨by decide, by decide, by decide, by decide, by decide, by decide, ?_⟩
+  intro h; exact absurd (h (by decide)).2 (by decide)
+
+/-- non-vacuity of `C05_connect_delivered_when_disconnected`, undetermined version: a fresh
+    server object of undetermined version adopts the frame's protocol level -/
+example : Ev.recv connect ∈ (step cfgS (St.init cfgS 0) (.recv connectBytes (okp connect))).ev :=
+  C05_connect_delivered_when_disconnected cfgS (St.init cfgS 0) connectBytes (okp connect) {} 0x10
+    (connectBytes.drop 2) [] connect (by decide) rfl (by decide) (by decide) (by decide)
+    (.inr ⟨rfl, by decide, .inr (by decide), rfl⟩)
+
+/-- v3.1.1 has no size test: a stale limit does not matter -/
+example : Ev.send { connect with ver := 4 } none ∈
+    (step cfgC { sC with ver := 4 } (.send { connect with ver := 4 })).ev :=
+  C05_connect_sent_when_disconnected cfgC { sC with ver := 4 } _ (by decide) rfl rfl (by decide) (.inl rfl)
+end C05Ex
 
 end MqttVerif.Conn
